@@ -221,6 +221,10 @@ def run(ctx):
                           'a NaN constant is passed as J6 of the 5-DOF solver: every candidate then carries a non-finite joint value', found=show(a, maxdepth=3), detail=show(a, maxdepth=3))
 
     _post_gate_writes(ctx, prog, methods)
+    # R01.5 relies on the near-normaliser changing an angle only by whole turns: re-check R04.3 here
+    from . import C04
+    ctx.rule('R04.3', 'near-normaliser: result == x (mod 2*pi) and |result - p| <= pi (abstract interpretation over cells, incl. narrow cells next to +-pi)')
+    C04._near_normaliser(ctx, prog, C04._norm_role(ctx, prog))
     _normalisation(ctx, six, 6)
     _normalisation(ctx, five, 5)
     entries = [methods[m].path for m in util.INVERSE_METHODS]
@@ -357,9 +361,14 @@ def _derives(b, l, src):
 def _normalisation(ctx, b, nslots):
     """R01.6: the stored angle passed the exit edges of both reduction loops; updates are -/+ 2*PI."""
     name = b.path.split('::')[-1]
-    ang = [l for l, n in b.names.items() if n == 'angle']
-    sols = [l for l, n in b.names.items() if n == 'sols']
-    if not ctx.check(len(ang) == 1 and len(sols) == 1, 'R01.6', name + '/locals', b.where(0), b.path, 'normalisation locals not found (angle, sols)'):
+    sols = [util.table_locals(b)[1]]
+    # the reduced angle: an f64 local with self-referential +/- updates
+    ang = []
+    for l in util.locals_of_type(b, lambda t: t == 'f64'):
+        ds = b.defs().get(l, [])
+        if sum(1 for d in ds if d[0] == 'st' and d[3]['rv']['k'] == 'bin' and d[3]['rv']['op'] in ('Add', 'Sub') and d[3]['rv']['a'].get('place', {}).get('local') == l) >= 2:
+            ang.append(l)
+    if not ctx.check(len(ang) == 1 and sols[0] is not None, 'R01.6', name + '/locals', b.where(0), b.path, 'normalisation loop not found (an f64 reduced by +/- 2*PI and stored back into the candidate array)'):
         return
     a = ang[0]
     two_pi = 2 * math.pi
